@@ -387,6 +387,21 @@ def eval_disc(case):
             fails.append("%s: %s wrote %r, read %r" % (what, at, getattr(di, at), getattr(d2, at)))
     if d2.dumps() != text:
         fails.append("%s: re-written file differs" % what)
+    # the same object then reads ANOTHER file: nothing of the first may survive
+    for other_discs, other_desc in ((["ALL"], "Other"), ([7, 8], "Other")):
+        o = DiscInfo()
+        o.timestamp, o.description, o.arch, o.disc_numbers = 1500000000.5, other_desc, di.arch, list(other_discs)
+        t2 = o.dumps()
+        for tx in (t2, "\n".join(t2.split("\n")[:3])):          # also without the optional fourth line (= ALL)
+            if tx != t2 and other_discs != ["ALL"]:
+                continue
+            fresh = DiscInfo()
+            fresh.loads(tx)
+            d2.loads(tx)
+            if (d2.timestamp, d2.description, d2.arch, d2.disc_numbers) != (fresh.timestamp, fresh.description, fresh.arch, fresh.disc_numbers):
+                fails.append("%s: object reused to read another file keeps state of the first: %r vs fresh %r"
+                             % (what, (d2.timestamp, d2.description, d2.arch, d2.disc_numbers),
+                                (fresh.timestamp, fresh.description, fresh.arch, fresh.disc_numbers)))
     return fails
 
 
